@@ -543,3 +543,24 @@ func (c *Ctx) ruleMimeAndSVG() {
 }
 
 var _ = ast.Inspect
+
+func init() {
+	mutant(&Mutant{Name: "c17-entity-typo", Property: "C17", File: "html/table.go",
+		Old: "\"Aacute\":                          []byte(\"&#193;\"),", New: "\"Aacute\":                          []byte(\"&#192;\"),",
+		Rule: "R17.entities", Construct: "html.EntitiesMap[Aacute]"})
+	mutant(&Mutant{Name: "c17-colour-typo", Property: "C17", File: "css/table.go",
+		Old: "\"#000080\": []byte(\"navy\"),", New: "\"#000081\": []byte(\"navy\"),",
+		Rule: "R17.colors", Construct: "css.ShortenColorHex[#000081]"})
+	mutant(&Mutant{Name: "c17-unit-ms", Property: "C17", File: "css/table.go",
+		Old: "\t\"turn\": true,\n", New: "\t\"turn\": true,\n\t\"ms\":   true,\n",
+		Rule: "R17.units", Construct: "css.optionalZeroDimension[ms]"})
+	mutant(&Mutant{Name: "c17-span-block", Property: "C17", File: "html/table.go",
+		Old: "\tSpan:       normalTag,\n", New: "\tSpan:       blockTag,\n",
+		Rule: "R17.htmltraits", Construct: "html.tagMap[Span]"})
+	mutant(&Mutant{Name: "c17-value-boolean", Property: "C17", File: "html/table.go",
+		Old: "\tWrap:                     trimAttr,\n", New: "\tWrap:                     booleanAttr,\n",
+		Rule: "R17.htmltraits", Construct: "html.attrMap[Wrap]"})
+	mutant(&Mutant{Name: "c17-hash-swap", Property: "C17", File: "css/hash.go",
+		Old: "Hash = 0x7a209 // aliceblue", New: "Hash = 0x37205 // aliceblue",
+		Rule: "R17.hash", Construct: "css.Hash/Aliceblue"})
+}
